@@ -521,3 +521,356 @@ Proof.
   rewrite (tris_perm ct e vl code G G' Hp) in T1. rewrite <- T2 in T1. injection T1 as -> ->.
   pose proof (single_perm cap G G' Hcap Hp) as Hs. rewrite <- S1, <- S2 in Hs. cbn [fst] in Hs. rewrite Hs. reflexivity.
 Qed.
+
+(* ------------------------------------------------------------------ sorting: a canonical result *)
+Section SortCanon.
+  Context {T : Type} (leb : T -> T -> bool) (P : T -> Prop).
+  Hypothesis leb_total : forall a b, P a -> P b -> leb a b = true \/ leb b a = true.
+  Hypothesis leb_trans : forall a b c, P a -> P b -> P c -> leb a b = true -> leb b c = true -> leb a c = true.
+  Hypothesis leb_antisym : forall a b, P a -> P b -> leb a b = true -> leb b a = true -> a = b.
+
+  Lemma leb_false_rev_gen a b : P a -> P b -> leb a b = false -> leb b a = true.
+  Proof. intros Ha Hb H. destruct (leb_total a b Ha Hb) as [H'|H']; congruence. Qed.
+
+  Lemma insert_comm_gen x y l : P x -> P y -> Forall P l ->
+    insert leb x (insert leb y l) = insert leb y (insert leb x l).
+  Proof.
+    intros Hx Hy Hl. induction Hl as [|z l Hz Hl IH]; cbn [insert].
+    - destruct (leb x y) eqn:Exy, (leb y x) eqn:Eyx; try reflexivity.
+      + assert (x = y) by (apply leb_antisym; assumption). subst. reflexivity.
+      + destruct (leb_total x y Hx Hy); congruence.
+    - destruct (leb y z) eqn:Eyz, (leb x z) eqn:Exz; cbn [insert].
+      + destruct (leb x y) eqn:Exy, (leb y x) eqn:Eyx; cbn [insert]; rewrite ?Eyz, ?Exz; try reflexivity.
+        * assert (x = y) by (apply leb_antisym; assumption). subst. reflexivity.
+        * destruct (leb_total x y Hx Hy); congruence.
+      + assert (Eyx : leb y x = true).
+        { apply (leb_false_rev_gen x z Hx Hz) in Exz. eapply (leb_trans y z x); eassumption. }
+        destruct (leb x y) eqn:Exy.
+        * assert (x = y) by (apply leb_antisym; assumption). subst. congruence.
+        * rewrite Exz, Eyz. reflexivity.
+      + assert (Exy : leb x y = true).
+        { apply (leb_false_rev_gen y z Hy Hz) in Eyz. eapply (leb_trans x z y); eassumption. }
+        destruct (leb y x) eqn:Eyx.
+        * assert (x = y) by (apply leb_antisym; assumption). subst. congruence.
+        * rewrite Exz, Eyz. reflexivity.
+      + rewrite Exz, Eyz. f_equal. exact IH.
+  Qed.
+
+  Lemma insert_P x l : P x -> Forall P l -> Forall P (insert leb x l).
+  Proof.
+    intros Hx Hl. induction Hl as [|z l Hz Hl IH]; cbn [insert]; [constructor; [exact Hx|constructor]|].
+    destruct (leb x z); constructor; try assumption. constructor; assumption.
+  Qed.
+
+  Lemma isort_P l : Forall P l -> Forall P (isort leb l).
+  Proof. induction 1 as [|x l Hx Hl IH]; cbn [isort]; [constructor|]. apply insert_P; assumption. Qed.
+
+  Theorem isort_perm_eq a b : Permutation a b -> Forall P a -> isort leb a = isort leb b.
+  Proof.
+    induction 1 as [| x a b Hp IH | x y a | a b c Hp1 IH1 Hp2 IH2]; intro HP; cbn [isort].
+    - reflexivity.
+    - inversion HP; subst. rewrite IH by assumption. reflexivity.
+    - inversion HP as [|? ? Hy HP']; subst. inversion HP' as [|? ? Hx HP'']; subst.
+      apply insert_comm_gen; try assumption. apply isort_P. exact HP''.
+    - rewrite IH1 by assumption. apply IH2. eapply Permutation_Forall; eassumption.
+  Qed.
+End SortCanon.
+
+(* ------------------------------------------------------------------ the order on VRLEs *)
+Definition klt (a b : Z * Z * Z) : Prop :=
+  fst (fst a) < fst (fst b) \/
+  (fst (fst a) = fst (fst b) /\ (snd (fst a) < snd (fst b) \/ (snd (fst a) = snd (fst b) /\ snd a < snd b))).
+
+Lemma key_cmp_spec a b : CompareSpec (a = b) (klt a b) (klt b a) (key_cmp a b).
+Proof.
+  destruct a as [[a1 a2] a3], b as [[b1 b2] b3]. unfold key_cmp, klt. cbn [fst snd].
+  destruct (Z.compare_spec a1 b1); [|constructor; lia|constructor; lia].
+  destruct (Z.compare_spec a2 b2); [|constructor; lia|constructor; lia].
+  destruct (Z.compare_spec a3 b3); constructor; [congruence|lia|lia].
+Qed.
+
+Lemma klt_irrefl a : ~ klt a a. Proof. unfold klt. lia. Qed.
+Lemma klt_trans a b c : klt a b -> klt b c -> klt a c. Proof. unfold klt. lia. Qed.
+Lemma klt_asym a b : klt a b -> klt b a -> False. Proof. unfold klt. lia. Qed.
+
+Lemma vrle_leb_total : forall a b, vrle_leb a b = true \/ vrle_leb b a = true.
+Proof.
+  induction a as [|x a IH]; intros [|y b]; cbn [vrle_leb]; try (left; reflexivity); try (right; reflexivity).
+  destruct (key_cmp_spec (vf_key x) (vf_key y)) as [E|H|H].
+  - rewrite E. destruct (key_cmp_spec (vf_key y) (vf_key y)) as [_|H|H]; [apply IH|destruct (klt_irrefl _ H)..].
+  - left; reflexivity.
+  - right. destruct (key_cmp_spec (vf_key y) (vf_key x)) as [E|H'|H']; [rewrite E in H; destruct (klt_irrefl _ H)|reflexivity|destruct (klt_asym _ _ H H')].
+Qed.
+
+Lemma vrle_leb_trans : forall a b c, vrle_leb a b = true -> vrle_leb b c = true -> vrle_leb a c = true.
+Proof.
+  induction a as [|x a IH]; intros [|y b] [|z c]; cbn [vrle_leb]; try reflexivity; try discriminate.
+  destruct (key_cmp_spec (vf_key x) (vf_key y)) as [E1|H1|H1]; [| |discriminate];
+  destruct (key_cmp_spec (vf_key y) (vf_key z)) as [E2|H2|H2]; try discriminate.
+  - rewrite E1, E2. destruct (key_cmp_spec (vf_key z) (vf_key z)) as [_|H|H]; [apply IH|destruct (klt_irrefl _ H)..].
+  - intros _ _. rewrite E1. destruct (key_cmp_spec (vf_key y) (vf_key z)) as [E|H|H]; [rewrite E in H2; destruct (klt_irrefl _ H2)|reflexivity|destruct (klt_asym _ _ H2 H)].
+  - intros _ _. rewrite <- E2. destruct (key_cmp_spec (vf_key x) (vf_key y)) as [E|H|H]; [rewrite E in H1; destruct (klt_irrefl _ H1)|reflexivity|destruct (klt_asym _ _ H1 H)].
+  - intros _ _. pose proof (klt_trans _ _ _ H1 H2) as H3.
+    destruct (key_cmp_spec (vf_key x) (vf_key z)) as [E|H|H]; [rewrite E in H3; destruct (klt_irrefl _ H3)|reflexivity|destruct (klt_asym _ _ H3 H)].
+Qed.
+
+Lemma vrle_leb_both_codes : forall a b, vrle_leb a b = true -> vrle_leb b a = true -> map vf_code a = map vf_code b.
+Proof.
+  induction a as [|x a IH]; intros [|y b]; cbn [vrle_leb map]; try reflexivity; try discriminate.
+  destruct (key_cmp_spec (vf_key x) (vf_key y)) as [E|H|H].
+  - rewrite E. destruct (key_cmp_spec (vf_key y) (vf_key y)) as [_|H|H]; [|destruct (klt_irrefl _ H)..].
+    intros H1 H2. f_equal; [|apply IH; assumption].
+    unfold vf_key in E. injection E as Ec _ _. exact Ec.
+  - intros _. destruct (key_cmp_spec (vf_key y) (vf_key x)) as [E|H'|H']; [rewrite E in H; destruct (klt_irrefl _ H)|destruct (klt_asym _ _ H H')|discriminate].
+  - discriminate.
+Qed.
+
+(* ------------------------------------------------------------------ to_vrles does not depend on the order *)
+From Tdda Require Import Rexpy.PipelineProofs Rexpy.BatchProofs.
+
+Lemma fold_min_le l : forall x, fold_left Z.min l x <= x /\ (forall y, In y l -> fold_left Z.min l x <= y) /\
+                                (fold_left Z.min l x = x \/ In (fold_left Z.min l x) l).
+Proof.
+  induction l as [|a l IH]; intro x; cbn [fold_left]; [split; [lia|split; [intros y []|left; reflexivity]]|].
+  destruct (IH (Z.min x a)) as (H1 & H2 & H3). split; [lia|]. split.
+  - intros y [<-|Hy]; [lia|apply H2; exact Hy].
+  - destruct H3 as [H3|H3]; [|right; right; exact H3].
+    rewrite H3. destruct (Z.min_spec x a) as [[_ ->]|[_ ->]]; [left; reflexivity|right; left; reflexivity].
+Qed.
+
+Lemma fold_max_ge l : forall x, x <= fold_left Z.max l x /\ (forall y, In y l -> y <= fold_left Z.max l x) /\
+                                (fold_left Z.max l x = x \/ In (fold_left Z.max l x) l).
+Proof.
+  induction l as [|a l IH]; intro x; cbn [fold_left]; [split; [lia|split; [intros y []|left; reflexivity]]|].
+  destruct (IH (Z.max x a)) as (H1 & H2 & H3). split; [lia|]. split.
+  - intros y [<-|Hy]; [lia|apply H2; exact Hy].
+  - destruct H3 as [H3|H3]; [|right; right; exact H3].
+    rewrite H3. destruct (Z.max_spec x a) as [[_ ->]|[_ ->]]; [right; left; reflexivity|left; reflexivity].
+Qed.
+
+Lemma list_min_perm l l' : Permutation l l' -> list_min l = list_min l'.
+Proof.
+  intro Hp. destruct l as [|x r]; [apply Permutation_nil in Hp; subst; reflexivity|].
+  destruct l' as [|x' r']; [apply Permutation_sym, Permutation_nil in Hp; discriminate|].
+  unfold list_min.
+  destruct (fold_min_le r x) as (A1 & A2 & A3). destruct (fold_min_le r' x') as (B1 & B2 & B3).
+  assert (HinA : In (fold_left Z.min r x) (x' :: r')).
+  { eapply Permutation_in; [exact Hp|]. destruct A3 as [->|A3]; [left; reflexivity|right; exact A3]. }
+  assert (HinB : In (fold_left Z.min r' x') (x :: r)).
+  { eapply Permutation_in; [apply Permutation_sym; exact Hp|]. destruct B3 as [->|B3]; [left; reflexivity|right; exact B3]. }
+  assert (fold_left Z.min r' x' <= fold_left Z.min r x) by (destruct HinA as [<-|H]; [exact B1|apply B2; exact H]).
+  assert (fold_left Z.min r x <= fold_left Z.min r' x') by (destruct HinB as [<-|H0]; [exact A1|apply A2; exact H0]).
+  lia.
+Qed.
+
+Lemma list_max_perm l l' : Permutation l l' -> list_max l = list_max l'.
+Proof.
+  intro Hp. destruct l as [|x r]; [apply Permutation_nil in Hp; subst; reflexivity|].
+  destruct l' as [|x' r']; [apply Permutation_sym, Permutation_nil in Hp; discriminate|].
+  unfold list_max.
+  destruct (fold_max_ge r x) as (A1 & A2 & A3). destruct (fold_max_ge r' x') as (B1 & B2 & B3).
+  assert (HinA : In (fold_left Z.max r x) (x' :: r')).
+  { eapply Permutation_in; [exact Hp|]. destruct A3 as [->|A3]; [left; reflexivity|right; exact A3]. }
+  assert (HinB : In (fold_left Z.max r' x') (x :: r)).
+  { eapply Permutation_in; [apply Permutation_sym; exact Hp|]. destruct B3 as [->|B3]; [left; reflexivity|right; exact B3]. }
+  assert (fold_left Z.max r x <= fold_left Z.max r' x') by (destruct HinA as [<-|H]; [exact B1|apply B2; exact H]).
+  assert (fold_left Z.max r' x' <= fold_left Z.max r x) by (destruct HinB as [<-|H0]; [exact A1|apply A2; exact H0]).
+  lia.
+Qed.
+
+Lemma filter_perm {T} (f : T -> bool) l l' : Permutation l l' -> Permutation (filter f l) (filter f l').
+Proof.
+  induction 1 as [|x l l' _ IH|x y l|l l' l'' _ IH1 _ IH2]; cbn [filter].
+  - constructor.
+  - destruct (f x); [apply perm_skip|]; exact IH.
+  - destruct (f x), (f y); try apply perm_swap; try apply Permutation_refl.
+  - eapply perm_trans; eassumption.
+Qed.
+
+Lemma vrle_of_sig_perm L L' sig : Permutation L L' -> vrle_of_sig L sig = vrle_of_sig L' sig.
+Proof.
+  intro Hp. unfold vrle_of_sig. apply map_ext. intro i.
+  set (g := filter (fun r => str_eqb (signature r) sig) L). set (g' := filter (fun r => str_eqb (signature r) sig) L').
+  assert (Hg : Permutation g g') by (apply filter_perm; exact Hp).
+  rewrite (list_min_perm _ _ (Permutation_map (fun r => snd (nth i r (0, 0))) Hg)).
+  rewrite (list_max_perm _ _ (Permutation_map (fun r => snd (nth i r (0, 0))) Hg)). reflexivity.
+Qed.
+
+Lemma dedup_by_NoDup {T} (eqb : T -> T -> bool) (Heq : forall a b, eqb a b = true <-> a = b) l : NoDup (dedup_by eqb l).
+Proof.
+  induction l as [|x l IH]; cbn [dedup_by]; [constructor|]. constructor.
+  - intro Hin. apply filter_In in Hin as [_ Hn]. assert (eqb x x = true) by (apply Heq; reflexivity). rewrite H in Hn. discriminate.
+  - apply NoDup_filter. exact IH.
+Qed.
+
+Lemma dedup_by_perm {T} (eqb : T -> T -> bool) (Heq : forall a b, eqb a b = true <-> a = b) l l' :
+  (forall x, In x l <-> In x l') -> Permutation (dedup_by eqb l) (dedup_by eqb l').
+Proof.
+  intro H. apply NoDup_Permutation; try (apply dedup_by_NoDup; exact Heq).
+  intro x. rewrite !(dedup_by_In eqb Heq). apply H.
+Qed.
+
+Theorem to_vrles_perm L L' : Permutation L L' -> to_vrles L = to_vrles L'.
+Proof.
+  intro Hp. unfold to_vrles.
+  assert (Hs : Permutation (sigs_of L) (sigs_of L')).
+  { unfold sigs_of. apply (dedup_by_perm str_eqb str_eqb_eq). intro x. split; intro Hx;
+      (eapply Permutation_in; [|exact Hx]); apply Permutation_map; [exact Hp|apply Permutation_sym; exact Hp]. }
+  rewrite (map_ext (vrle_of_sig L') (vrle_of_sig L) (fun sig => eq_sym (vrle_of_sig_perm L L' sig Hp))).
+  apply (isort_perm_eq vrle_leb (fun v => v = vrle_of_sig L (map vf_code v))).
+  - intros a b _ _. apply vrle_leb_total.
+  - intros a b c _ _ _. apply vrle_leb_trans.
+  - intros a b Ha Hb H1 H2. rewrite Ha, Hb. rewrite (vrle_leb_both_codes a b H1 H2). reflexivity.
+  - apply Permutation_map. exact Hs.
+  - apply Forall_forall. intros v Hv. apply in_map_iff in Hv as [sig [<- _]]. rewrite vrle_of_sig_codes. reflexivity.
+Qed.
+
+(* ------------------------------------------------------------------ the accumulators of one pattern *)
+Lemma fold_nth ct e vl cap vrle i : (i < length vrle)%nat -> forall groups accs,
+  (forall gs, In gs groups -> length gs = length vrle) -> length accs = length vrle ->
+  length (fold_left (fold_step ct e vl cap vrle) groups accs) = length vrle /\
+  nth i (fold_left (fold_step ct e vl cap vrle) groups accs) acc0 =
+  fold_left (acc_step ct e vl cap (vf_code (nth i vrle (0, 0, None)))) (column i groups) (nth i accs acc0).
+Proof.
+  intro Hi. induction groups as [|gs groups IH]; intros accs Hlen Ha; cbn [fold_left column map]; [split; [exact Ha|reflexivity]|].
+  assert (Hgs : length gs = length vrle) by (apply Hlen; left; reflexivity).
+  assert (Hl : length (fold_step ct e vl cap vrle accs gs) = length vrle).
+  { unfold fold_step. rewrite zip_with_length, combine_length. lia. }
+  destruct (IH (fold_step ct e vl cap vrle accs gs) (fun g Hg => Hlen g (or_intror Hg)) Hl) as [IH1 IH2].
+  split; [exact IH1|]. rewrite IH2. f_equal. unfold fold_step.
+  pose proof (zip_with_nth (fun (va : vfrag * acc) (g : str) => acc_step ct e vl cap (vf_code (fst va)) (snd va) g)
+                           (combine vrle accs) gs i ((0, 0, None), acc0) [] acc0) as Hz.
+  rewrite Hz by (rewrite ?combine_length; lia). rewrite combine_nth by (symmetry; exact Ha). reflexivity.
+Qed.
+
+Lemma fold_len ct e vl cap vrle : forall groups accs,
+  (forall gs, In gs groups -> length gs = length vrle) -> length accs = length vrle ->
+  length (fold_left (fold_step ct e vl cap vrle) groups accs) = length vrle.
+Proof.
+  induction groups as [|gs groups IH]; intros accs Hlen Ha; cbn [fold_left]; [exact Ha|].
+  apply IH; [intros g Hg; apply Hlen; right; exact Hg|].
+  unfold fold_step. rewrite zip_with_length, combine_length. rewrite (Hlen gs (or_introl eq_refl)). lia.
+Qed.
+
+Lemma refine_all_view ct mp e : forall vs accs accs' n, Forall2 (fun a a' => view a = view a') accs accs' ->
+  refine_all ct mp e n vs accs = refine_all ct mp e n vs accs'.
+Proof.
+  induction vs as [|v vs IH]; intros accs accs' n H; [reflexivity|].
+  destruct H as [|a a' accs accs' Hv H]; [reflexivity|]. cbn [refine_all].
+  rewrite (refine_one_view ct mp e n v a a' Hv). destruct (refine_one ct mp e n v a') as [fs n']. f_equal. apply IH. exact H.
+Qed.
+
+Lemma Forall2_nth_local {A} (R : A -> A -> Prop) d : forall l l', length l = length l' ->
+  (forall i, (i < length l)%nat -> R (nth i l d) (nth i l' d)) -> Forall2 R l l'.
+Proof.
+  induction l as [|x l IH]; intros [|y l'] Hlen H; try discriminate; constructor.
+  - apply (H O). cbn. lia.
+  - apply IH; [cbn in Hlen; lia|]. intros i Hi. apply (H (S i)). cbn. lia.
+Qed.
+
+Lemma mapM_perm {A B} (f : A -> res B) l l' : Permutation l l' -> forall ys, mapM f l = Ok ys ->
+  exists ys', mapM f l' = Ok ys' /\ Permutation ys ys'.
+Proof.
+  induction 1 as [|x l l' _ IH|x y l|l l' l'' _ IH1 _ IH2]; intros ys H.
+  - exists ys. split; [exact H|apply Permutation_refl].
+  - cbn [mapM] in *. destruct (f x) as [b|err]; cbn [bind] in *; [|discriminate].
+    destruct (mapM f l) as [bs|err]; cbn [bind] in *; [|discriminate]. injection H as <-.
+    destruct (IH bs eq_refl) as [bs' [-> Hp]]. cbn [bind]. eexists. split; [reflexivity|apply perm_skip; exact Hp].
+  - cbn [mapM] in *. destruct (f y) as [b|err]; cbn [bind] in *; [|discriminate].
+    destruct (f x) as [b2|err]; cbn [bind] in *; [|discriminate].
+    destruct (mapM f l) as [bs|err]; cbn [bind] in *; [|discriminate]. injection H as <-.
+    eexists. split; [reflexivity|apply perm_swap].
+  - destruct (IH1 ys H) as [ys1 [H1 P1]]. destruct (IH2 ys1 H1) as [ys2 [H2 P2]].
+    exists ys2. split; [exact H2|eapply perm_trans; eassumption].
+Qed.
+
+Lemma mapM_impl {A B} (f g : A -> res B) l : (forall x y, In x l -> f x = Ok y -> g x = Ok y) ->
+  forall ys, mapM f l = Ok ys -> mapM g l = Ok ys.
+Proof.
+  induction l as [|x l IH]; intros Hfg ys H; cbn [mapM] in *; [exact H|].
+  destruct (f x) as [b|err] eqn:Ef; cbn [bind] in *; [|discriminate].
+  rewrite (Hfg x b (or_introl eq_refl) Ef). cbn [bind].
+  destruct (mapM f l) as [bs|err] eqn:El; cbn [bind] in *; [|discriminate].
+  rewrite (IH (fun x0 y0 Hx => Hfg x0 y0 (or_intror Hx)) bs eq_refl). exact H.
+Qed.
+
+Lemma combine_map_self {A B} (f : A -> B) l : combine l (map f l) = map (fun x => (x, f x)) l.
+Proof. induction l as [|x l IH]; cbn [combine map]; [reflexivity|]. rewrite IH. reflexivity. Qed.
+
+Lemma column_perm i G G' : Permutation G G' -> Permutation (column i G) (column i G').
+Proof. apply Permutation_map. Qed.
+
+(* one coarse pattern: the refinement sees the examples only through each position's view *)
+Theorem refine_vrle_perm ct o e stripped gt strings strings' vrle r :
+  1 <= z_max_strings_in_group o -> Permutation strings strings' ->
+  refine_vrle ct o e stripped gt strings (map (rle_coarse ct e) strings) vrle = Ok r ->
+  refine_vrle ct o e stripped gt strings' (map (rle_coarse ct e) strings') vrle = Ok r.
+Proof.
+  intros Hcap Hp. unfold refine_vrle.
+  destruct (vrle2re false (o_full_escape o) e stripped true (map frag_of_vfrag vrle)) as [regex|err]; cbn [bind]; [|discriminate].
+  rewrite !combine_map_self.
+  set (sel := fun sr : str * list (Z * Z) => str_eqb (signature (snd sr)) (map vf_code vrle)).
+  set (look := fun ex : str => match lookup_groups gt regex ex with
+        | Some gs => if Nat.eqb (length gs) (length vrle) then Ok gs else Err E_GROUP_COUNT | None => Err E_NO_GROUPS end).
+  assert (Hm : Permutation (map fst (filter sel (map (fun x => (x, rle_coarse ct e x)) strings)))
+                           (map fst (filter sel (map (fun x => (x, rle_coarse ct e x)) strings')))).
+  { apply Permutation_map, filter_perm, Permutation_map. exact Hp. }
+  destruct (mapM look (map fst (filter sel (map (fun x => (x, rle_coarse ct e x)) strings)))) as [groups|err] eqn:Eg; cbn [bind]; [|discriminate].
+  destruct (mapM_perm look _ _ Hm groups Eg) as [groups' [-> Hg]]. cbn [bind]. intro H. injection H as <-. f_equal.
+  assert (Hlen : forall gs, In gs groups -> length gs = length vrle).
+  { intros gs Hin. destruct (mapM_In _ _ _ _ Eg Hin) as [ex [_ Hex]]. unfold look in Hex.
+    destruct (lookup_groups gt regex ex) as [gs0|]; [|discriminate].
+    destruct (Nat.eqb (length gs0) (length vrle)) eqn:En; [|discriminate]. injection Hex as <-. apply Nat.eqb_eq. exact En. }
+  assert (Hlen' : forall gs, In gs groups' -> length gs = length vrle).
+  { intros gs Hin. apply Hlen. eapply Permutation_in; [apply Permutation_sym; exact Hg|exact Hin]. }
+  change (fun (accs : list acc) (gs : list str) =>
+            zip_with (fun va g => acc_step ct e (o_vlf o) (z_max_strings_in_group o) (vf_code (fst va)) (snd va) g) (combine vrle accs) gs)
+    with (fold_step ct e (o_vlf o) (z_max_strings_in_group o) vrle).
+  set (init := map (fun _ : vfrag => acc0) vrle).
+  assert (Hinit : length init = length vrle) by apply map_length.
+  symmetry. apply refine_all_view. apply (Forall2_nth_local _ acc0).
+  - rewrite (fold_len ct e (o_vlf o) (z_max_strings_in_group o) vrle groups init Hlen Hinit).
+    rewrite (fold_len ct e (o_vlf o) (z_max_strings_in_group o) vrle groups' init Hlen' Hinit). reflexivity.
+  - intros i Hi. rewrite (fold_len ct e (o_vlf o) (z_max_strings_in_group o) vrle groups init Hlen Hinit) in Hi.
+    rewrite (proj2 (fold_nth ct e (o_vlf o) (z_max_strings_in_group o) vrle i Hi groups init Hlen Hinit)).
+    rewrite (proj2 (fold_nth ct e (o_vlf o) (z_max_strings_in_group o) vrle i Hi groups' init Hlen' Hinit)).
+    unfold init. rewrite nth_map_const.
+    apply (view_perm ct e (o_vlf o) (z_max_strings_in_group o) _ _ _ Hcap (column_perm i _ _ Hg)).
+Qed.
+
+(* ------------------------------------------------------------------ the batch *)
+Theorem batch_extract_perm ct o e stripped gt ex ex' r :
+  1 <= z_max_strings_in_group o -> Permutation (ex_strings ex) (ex_strings ex') ->
+  batch_extract ct o e stripped gt ex = Ok r -> batch_extract ct o e stripped gt ex' = Ok r.
+Proof.
+  intros Hcap Hp. unfold batch_extract.
+  assert (Hd : Permutation (dedup_by rle_eqb (map (rle_coarse ct e) (ex_strings ex)))
+                           (dedup_by rle_eqb (map (rle_coarse ct e) (ex_strings ex')))).
+  { apply (dedup_by_perm rle_eqb rle_eqb_eq). intro x. split; intro Hx;
+      (eapply Permutation_in; [|exact Hx]); apply Permutation_map; [exact Hp|apply Permutation_sym; exact Hp]. }
+  rewrite <- (to_vrles_perm _ _ Hd).
+  destruct (mapM (refine_vrle ct o e stripped gt (ex_strings ex) (map (rle_coarse ct e) (ex_strings ex))) _) as [refined|err] eqn:Er;
+    cbn [bind]; [|discriminate].
+  rewrite (mapM_impl _ (refine_vrle ct o e stripped gt (ex_strings ex') (map (rle_coarse ct e) (ex_strings ex'))) _
+             (fun v y _ Hv => refine_vrle_perm ct o e stripped gt _ _ v y Hcap Hp Hv) refined Er).
+  cbn [bind]. exact (fun H => H).
+Qed.
+
+(* ... and so does failure: an ordering of the examples on which the batch fails exists iff it fails on all *)
+Corollary batch_extract_perm_err ct o e stripped gt ex ex' err :
+  1 <= z_max_strings_in_group o -> Permutation (ex_strings ex) (ex_strings ex') ->
+  batch_extract ct o e stripped gt ex = Err err -> exists err', batch_extract ct o e stripped gt ex' = Err err'.
+Proof.
+  intros Hcap Hp H. destruct (batch_extract ct o e stripped gt ex') as [r|err'] eqn:E'; [|exists err'; reflexivity].
+  rewrite (batch_extract_perm ct o e stripped gt ex' ex r Hcap (Permutation_sym Hp) E') in H. discriminate.
+Qed.
+
+(* the frequencies are not looked at by the batch at all *)
+Theorem batch_extract_freqs ct o e stripped gt ex fs :
+  batch_extract ct o e stripped gt ex = batch_extract ct o e stripped gt {| ex_strings := ex_strings ex; ex_freqs := fs |}.
+Proof. reflexivity. Qed.
+
+(* the hypothesis on max_strings_in_group cannot be dropped: with a cap of 0 the first example analysed fixes the fragment *)
+Example cap_zero_order_matters :
+  view (acc_fold py_chartab [] false 0 cUC [[97]; [98]]) <> view (acc_fold py_chartab [] false 0 cUC [[98]; [97]]).
+Proof. vm_compute. discriminate. Qed.
